@@ -367,11 +367,11 @@ Proof.
     destruct (existsb (is_stage Queued) (g_pipe g)) eqn:S3.
     { intro H; inversion H; subst; clear H. unfold rank. cbn [tick g_clients g_pipe g_close g_wdone].
       pose proof (pop_batch_rank (g_bmax g) (g_pipe g) Hb S3). lia. }
-    rewrite Ec. intro H; inversion H; subst; clear H. unfold rank. cbn. rewrite Ew. lia. }
+    rewrite Ec. intro H; inversion H; subst; clear H. unfold rank. cbn [g_clients g_pipe g_close g_wdone]. rewrite Ew. lia. }
   rewrite E1. destruct (t =? 2) eqn:E2.
   { unfold closer_step. destruct (g_close g) eqn:Eg; try discriminate.
-    - destruct (g_wdone g); [|discriminate]. intro H; inversion H; subst; clear H. unfold rank. cbn. rewrite Eg. cbn. lia.
-    - intro H; inversion H; subst; clear H. unfold rank. cbn. rewrite Eg. cbn. lia. }
+    - destruct (g_wdone g); [|discriminate]. intro H; inversion H; subst; clear H. unfold rank. cbn [set_flags g_clients g_pipe g_close g_wdone]. rewrite Eg. cbn [close_rank]. lia.
+    - intro H; inversion H; subst; clear H. unfold rank. cbn [set_flags g_clients g_pipe g_close g_wdone]. rewrite Eg. cbn [close_rank]. lia. }
   cbn [orb] in Et. apply existsb_exists in Et as [x [Hx Ex]]. apply N.eqb_eq in Ex. subst x.
   unfold client_step, fail_write.
   assert (Hupd : forall prog pc mem pipe lin,
@@ -437,7 +437,7 @@ Qed.
 Theorem throttle_keeps_rank cids g g' : tstep g 1 = Some g' -> rank cids g' = rank cids g.
 Proof.
   change (tstep g 1) with (env_step g). unfold env_step. destruct (g_close g) eqn:Ec; intro H; inversion H; subst;
-    unfold rank; cbn; rewrite Ec; reflexivity.
+    unfold rank; cbn [set_flags g_clients g_pipe g_close g_wdone]; rewrite Ec; reflexivity.
 Qed.
 
 Theorem worker_decreases_rank cids g g' :
@@ -461,7 +461,7 @@ Proof.
   destruct (existsb (is_stage Queued) (g_pipe g)) eqn:S3.
   { intro H; inversion H; subst; clear H. unfold rank. cbn [tick g_clients g_pipe g_close g_wdone].
     pose proof (pop_batch_rank (g_bmax g) (g_pipe g) Hb S3). lia. }
-  destruct (closed_b (g_close g)); [|discriminate]. intro H; inversion H; subst; clear H. unfold rank. cbn. rewrite Ew. lia.
+  destruct (closed_b (g_close g)); [|discriminate]. intro H; inversion H; subst; clear H. unfold rank. cbn [g_clients g_pipe g_close g_wdone]. rewrite Ew. lia.
 Qed.
 
 (** * Calls issued after Close *)
